@@ -128,3 +128,16 @@ func JsonNegIntLiteralOutOfRange(v reflect.Value) bool {
 	})
 	return bad
 }
+
+// ShortReader returns at most N bytes per Read (a socket / pipe that delivers small chunks); only Read is exposed.
+type ShortReader struct {
+	R io.Reader
+	N int
+}
+
+func (s *ShortReader) Read(p []byte) (int, error) {
+	if len(p) > s.N {
+		p = p[:s.N]
+	}
+	return s.R.Read(p)
+}
